@@ -2,6 +2,7 @@ package main
 
 import (
 	"fmt"
+	"os"
 	"go/types"
 	"sort"
 	"strings"
@@ -46,6 +47,7 @@ type World struct {
 	splits        []Term
 	quantFacts    []quantFact
 	loopFreshOnly map[string]bool
+	loopPreserved map[string]bool
 	indexTerms    []Term
 	topEntry      *State
 	firedAsserts  map[*AssertSpec]bool
@@ -489,7 +491,7 @@ func (w *World) heapTypeInv(key string, arr Term, alloc Term) {
 		ki, _, _ := arrayParts(el)
 		y := fmt.Sprintf("(select (select %s ti!) tk!)", arr.S)
 		w.sc.raw(fmt.Sprintf("(assert (forall ((ti! %s) (tk! %s)) (! (and (<= 0 (sarr %s)) (<= (sarr %s) %s) (<= 0 (soff %s)) (<= 0 (slen %s)) (<= (slen %s) (scap %s)) (=> (= (sarr %s) 0) (= (slen %s) 0))) :pattern (%s))))", idx, ki, y, y, alloc.S, y, y, y, y, y, y, y))
-	case el == SInt && w.heapRef[key]:
+	case el == SInt && w.heapRef[key] && os.Getenv("GOAVC_REFINV") != "":
 		w.sc.raw(fmt.Sprintf("(assert (forall ((ti! %s)) (! (and (<= 0 %s) (<= %s %s)) :pattern (%s))))", idx, x, x, alloc.S, x))
 	}
 }
@@ -730,7 +732,58 @@ func (w *World) skolemGoal(env *CEnv, e *CExpr) Term {
 		case e.Op == "bin" && e.Name == "&&":
 			return and(walk(env, e.Args[0]), walk(env, e.Args[1]))
 		case e.Op == "bin" && e.Name == "==>":
-			return implies(w.evalBool(env, e.Args[0]), walk(env, e.Args[1]))
+			ante := w.evalBool(env, e.Args[0])
+			cons := walk(env, e.Args[1])
+			// universally quantified hypotheses are instantiated at the candidate terms as well
+			var insts []Term
+			var collect func(h *CExpr)
+			collect = func(h *CExpr) {
+				switch {
+				case h.Op == "bin" && h.Name == "&&":
+					collect(h.Args[0])
+					collect(h.Args[1])
+				case h.Op == "forall" && len(h.Binders) >= 1 && len(h.Binders) <= 2:
+					for _, b := range h.Binders {
+						if !((b.Type.Name == "int" || b.Type.Name == "Int") && b.Type.Ptr == 0 && b.Type.Pkg == "" && !b.Type.Slice && b.Type.Raw == "") {
+							return
+						}
+					}
+					cands := append(append([]Term{}, sks...), w.indexTerms...)
+					if len(cands) > 8 {
+						cands = cands[:8]
+					}
+					var combos [][]Term
+					if len(h.Binders) == 1 {
+						for _, t := range cands {
+							combos = append(combos, []Term{t})
+						}
+					} else {
+						for _, t1 := range cands {
+							for _, t2 := range cands {
+								combos = append(combos, []Term{t1, t2})
+							}
+						}
+					}
+					for _, combo := range combos {
+						func() {
+							defer func() {
+								if r := recover(); r != nil {
+									if _, ok := r.(unsupportedErr); !ok {
+										panic(r)
+									}
+								}
+							}()
+							env2 := env
+							for i, b := range h.Binders {
+								env2 = env2.with(b.Name, &Val{T: combo[i], Typ: types.Typ[types.Int]})
+							}
+							insts = append(insts, w.evalBool(env2, h.Args[0]))
+						}()
+					}
+				}
+			}
+			collect(e.Args[0])
+			return implies(and(append([]Term{ante}, insts...)...), cons)
 		case e.Op == "forall":
 			inner := env
 			for _, b := range e.Binders {
@@ -751,6 +804,23 @@ func (w *World) skolemGoal(env *CEnv, e *CExpr) Term {
 				}
 			}
 			return walk(inner, e.Args[0])
+		case e.Op == "exists" && len(e.Binders) == 1 && (e.Binders[0].Type.Name == "int" || e.Binders[0].Type.Name == "Int") && e.Binders[0].Type.Ptr == 0 && e.Binders[0].Type.Pkg == "":
+			// a positive existential: offer the program's index terms as witnesses
+			// (G(t1) or ... or exists k. G(k) is equivalent to the original)
+			alts := []Term{w.evalBool(env, e)}
+			for _, t := range append(append([]Term{}, w.indexTerms...), sks...) {
+				func() {
+					defer func() {
+						if r := recover(); r != nil {
+							if _, ok := r.(unsupportedErr); !ok {
+								panic(r)
+							}
+						}
+					}()
+					alts = append(alts, w.evalBool(env.with(e.Binders[0].Name, &Val{T: t, Typ: types.Typ[types.Int]}), e.Args[0]))
+				}()
+			}
+			return or(alts...)
 		}
 		return w.evalBool(env, e)
 	}
